@@ -154,13 +154,14 @@ Proof. exact route_without_constructor_refuted. Qed.
 Theorem C13_fieldwise_construction_aware : forall x d, dt_of_fields x = Some d ->
   aware d /\ wall d = wall x /\ (off x = None -> off d = Some 0) /\ (forall z, off x = Some z -> off d = Some z).
 Proof. exact dt_of_fields_aware. Qed.
-(* replace(tzinfo=None) on a value of the field type: aware UTC with the same wall clock PROVIDED the interpreter
-   calls the field type's constructor for the result (GENERATED probe gen_replace_none_bypasses_constructor) ... *)
-Theorem C13_replace_tzinfo_none_partial : forall d, valid d -> gen_replace_none_bypasses_constructor = false ->
+(* replace(tzinfo=None) on a value of the field type gives the aware UTC value with the same wall clock, like every
+   other construction form (GENERATED probe: the result is not a naive value of the field type) *)
+Theorem C13_replace_tzinfo_none : forall d, valid d ->
   replace_tzinfo_none gen_replace_none_bypasses_constructor d = Some (coerce (strip_off d))
   /\ off (coerce (strip_off d)) = Some 0 /\ wall (coerce (strip_off d)) = wall d.
-Proof. intros d Hv ->. exact (replace_none_constructed d Hv). Qed.
-(* ... and FALSE when it does not (CPython <= 3.12 builds the result in C): the result is a naive value of the field type *)
+Proof. exact replace_none_constructed. Qed.
+(* pre-fix witness (repo commit e65ada5): while the interpreter built the result without the field type's constructor
+   (CPython <= 3.12 does so in C, and the field type did not override replace), the result was naive *)
 Theorem C13_replace_tzinfo_none_refuted : forall d, exists r, replace_tzinfo_none true d = Some r /\ off r = None.
 Proof. exact replace_none_bypass_refuted. Qed.
 
